@@ -410,6 +410,30 @@ func TestC05_JAR(t *testing.T) {
 	})
 }
 
+const kInlineText = "C05:pgp-inline-textmode-signature-over-binary-literal"
+
+// TestC05_KnownProbes re-checks listed findings on minimal inputs.
+func TestC05_KnownProbes(t *testing.T) {
+	if knownSet.Has(kInlineText) {
+		dir := filepath.Join(workDir, "probe-inline")
+		os.Mkdir(dir, 0o755)
+		defer os.RemoveAll(dir)
+		in, out := filepath.Join(dir, "msg.txt"), filepath.Join(dir, "msg.asc")
+		os.WriteFile(in, []byte("line one\nline two  \nthree\n"), 0o644)
+		if err := env.SignLib(&pipe.Req{SigType: "pgp", In: in, Out: out, Key: "rsa2048a", Hash: crypto.SHA256, Flags: map[string]string{"inline": "true", "armor": "true", "textmode": "true"}}); err == nil {
+			if o, err := gpgv("rsa2048a", "--output", filepath.Join(dir, "plain"), out); err != nil || !strings.Contains(o, "Good signature") {
+				rec.KnownFinding(kInlineText, "gpgv on relic's --inline --textmode message over text with LF line ends: "+lastLine(o))
+			}
+		}
+	}
+	rec.Case("known-probes", "known-probes", false)
+}
+
+func lastLine(s string) string {
+	l := strings.Split(strings.TrimSpace(s), "\n")
+	return strings.TrimSpace(l[len(l)-1])
+}
+
 func TestC05_PGP(t *testing.T) {
 	rapid.Check(t, func(t *rapid.T) {
 		mode := rapid.SampledFrom([]string{"detached", "clearsign", "inline"}).Draw(t, "mode")
@@ -430,7 +454,7 @@ func TestC05_PGP(t *testing.T) {
 			delete(flags, "clearsign")
 		}
 		// canonical-text signatures are defined for text; binary payloads are signed in binary mode
-		if rapid.Bool().Draw(t, "textmode") && mode == "detached" && a.Classes[0] == "blob-text" {
+		if rapid.Bool().Draw(t, "textmode") && (mode == "detached" || mode == "inline") && a.Classes[0] == "blob-text" {
 			flags["textmode"] = "true"
 		}
 		key := rapid.SampledFrom(pgpKeys).Draw(t, "key")
@@ -456,6 +480,12 @@ func TestC05_PGP(t *testing.T) {
 			o, err = gpgv(key, "--output", filepath.Join(dir, "plain"), out)
 		}
 		if err != nil || !strings.Contains(o, "Good signature") {
+			if mode == "inline" && flags["textmode"] != "" && knownSet.Has(kInlineText) && bytes.Contains(bytes.ReplaceAll(a.Data, []byte("\r\n"), nil), []byte("\n")) {
+				// listed finding: a text-mode signature inside a binary literal packet; gpg hashes
+				// the literal data as stored, so any bare LF makes it disagree
+				rec.Excluded(kInlineText)
+				return
+			}
 			failf(t, cd, a, sig, "gpgv does not accept relic's %s signature: %s", mode, strings.TrimSpace(o))
 		}
 		if mode == "inline" {
